@@ -21,7 +21,7 @@ ID = "C14"
 LEVEL = "exploration"
 TECHNIQUE = "deterministic simulation: a driver with seeded handler configurations (plain/coroutine, vetoing, shared between elements) receives writes from a real client over the simulated wire and from driver-side code; a global trace of handler entries and router publications is checked against the event contract per operation"
 RULE = ("scenario = handler configuration (0-2 handlers per event kind per element; plain or coroutine; vetoing or not; attached to one or two "
-        "elements through the real @on) x element kinds (text, number, switch AnyOfMany/OneOfMany, read-refreshed text) x sequence of "
+        "elements through the real @on; the driver is one class or a base + derived pair with handlers on both and decorated overrides) x element kinds (text, number, switch AnyOfMany/OneOfMany, read-refreshed text) x sequence of "
         "operations (client write of 1-2 elements, set_value(), direct assignment; changing and unchanged values; reads through "
         "getProperties and attribute access) x network knobs; distinct = (handler configuration shape, operation kinds, outcome classes "
         "vetoed/changed/unchanged/forced-back); non-trivial = at least one operation with at least one handler invoked")
@@ -45,6 +45,8 @@ def generate(seed, tier, index):
     rng = random.Random(seed)
     thorough = tier == "thorough"
     handlers = []
+    # the driver is one class, or a base driver class plus a derived one (handlers spread over both; some overridden)
+    hier = rng.choice(["flat", "flat", "split", "override"])
     for vec, el in ELEMENTS:
         for kind in ("Write", "Change"):
             for _ in range(rng.choice([0, 0, 1, 1, 2])):
@@ -56,6 +58,12 @@ def generate(seed, tier, index):
                 if rng.random() < 0.2:
                     other = rng.choice([e for e in ELEMENTS if e != (vec, el)])
                     h["on"].append(list(other))
+                if hier != "flat" and not h.get("dynamic"):
+                    h["where"] = rng.choice(["base", "derived"])
+                    if hier == "override" and rng.random() < 0.5:
+                        # the derived driver overrides the base driver's handler method (same name) and decorates the override for
+                        # the same element and event: the override is the one subscribed handler, the base method is shadowed
+                        h["where"], h["overridden"] = "derived", True
                 handlers.append(h)
     read_mode = rng.choice(["none", "plain", "plain2", "coro"])
     disabled_vec = rng.choice([None, None, None, "TXT", "NUM", "ANY"])
@@ -91,7 +99,7 @@ def generate(seed, tier, index):
         else:
             steps.append({"op": "getprops"})
     net = {"latency": rng.choice(["zero", "lan", "slow"]), "frag": rng.choice(["whole", "fixed:7", "random", "coalesce"]), "hwm": 65536}
-    return {"handlers": handlers, "read_mode": read_mode, "disabled_vec": disabled_vec, "steps": steps, "net": net, "seed": rng.randrange(1 << 30)}
+    return {"handlers": handlers, "hier": hier, "read_mode": read_mode, "disabled_vec": disabled_vec, "steps": steps, "net": net, "seed": rng.randrange(1 << 30)}
 
 
 def build_driver(scen, trace, sim):
@@ -116,6 +124,7 @@ def build_driver(scen, trace, sim):
         return grp.vectors[v].elements[e]
 
     dct = {"name": "EV", "main": grp}
+    placement, shadow = {}, {}
     cls_kind = {"Write": Write, "Change": Change, "Read": Read}
     dynamic = {}
     for i, h in enumerate(scen["handlers"]):
@@ -146,6 +155,14 @@ def build_driver(scen, trace, sim):
                 rec(event)
         fn.__name__ = f"h{i}"
         dct[f"h{i}"] = on(srcs if len(srcs) > 1 else srcs[0], cls_kind[h["kind"]])(fn)
+        placement[f"h{i}"] = h.get("where", "derived")
+        if h.get("overridden"):
+            def shadowed(self, event, hid=i, h=h):
+                trace.append({"t": sim.loop.time(), "what": "handler", "hid": f"shadowed{hid}", "kind": h["kind"], "coro": False,
+                              "el": event.element.name, "vec": event.vector.name, "at_entry": event.element._value,
+                              "new": getattr(event, "new_value", None), "old": getattr(event, "old_value", None)})
+            shadowed.__name__ = f"h{i}"
+            shadow[f"h{i}"] = on(srcs if len(srcs) > 1 else srcs[0], cls_kind[h["kind"]])(shadowed)
     rm = scen["read_mode"]
     reads = [0]
     installed = []  # every (payload, format) a Read handler of B0 installed, in order
@@ -179,7 +196,13 @@ def build_driver(scen, trace, sim):
             installed.append((frame.binary, frame.format))
             event.element.reset_value(frame)
         dct["rblob"] = on(grp.vectors["img"].elements["b0"], Read)(rblob)
-    return type("EvDriver", (Driver,), dct), attr, dynamic, installed
+    if scen.get("hier", "flat") == "flat":
+        return type("EvDriver", (Driver,), dct), attr, dynamic, installed
+    base_dct = {k: v for k, v in dct.items() if k in ("name", "main") or placement.get(k) == "base"}
+    base_dct.update(shadow)
+    der_dct = {k: v for k, v in dct.items() if k not in base_dct or k in shadow}
+    base = type("EvBase", (Driver,), base_dct)
+    return type("EvDriver", (base,), der_dct), attr, dynamic, installed
 
 
 def execute(scen):
@@ -195,6 +218,8 @@ def execute(scen):
         stack = Stack(sim, [])
         drv = cls(router=stack.router)
         stack.drivers["EV"] = drv
+        if scen.get("hier", "flat") != "flat":
+            probes["driver_class_hierarchy:" + scen["hier"]] = 1
 
         def pub_hook(origin, sender, message):
             if origin == "driver" and message.tag_name().startswith("set"):
@@ -229,6 +254,10 @@ def execute(scen):
             pubs = [e for e in seg if e["what"] == "publish" and e["vec"] == vec]
             if hs:
                 invoked_any = True
+            for e in hs:
+                if str(e["hid"]).startswith("shadowed"):
+                    viol.append({"clause": "C14.write_once", "detail": f"the base driver's handler method {e['hid'][8:]} was invoked although the derived driver overrides it; {ctx}", "facts": f2})
+                    return None
             # Write
             wsub = subscribed("Write", vec, el)
             for hid in wsub:
@@ -476,4 +505,8 @@ def simplify(scen):
     if scen["read_mode"] != "none":
         c = copy.deepcopy(scen)
         c["read_mode"] = "none"
+        yield c
+    if scen.get("hier", "flat") != "flat":
+        c = copy.deepcopy(scen)
+        c["hier"] = "flat"
         yield c
